@@ -11,6 +11,7 @@ from .values import BV8, BYTES
 
 CVC5 = "/usr/bin/cvc5"
 Z3CLI = "/usr/bin/z3"
+Z3NEW = "z3-new"
 
 
 def bytes_lit(b: bytes):
@@ -58,9 +59,30 @@ def py_of(v):
     return str(v)
 
 
-def second_opinion(solver: z3.Solver, inputs):
-    """Called when z3 (API) answered unknown.  The assertion stack (pc and negated goal) is exported
-    as SMT-LIB2 and put to cvc5 and the z3 CLI.  Returns (status, backend, model)."""
+def has_strings(e, _seen=None) -> bool:
+    """does the term mention the String sort / regular expressions (z3's in-process string solver does not
+    honour time limits reliably, so such goals are put to the external solvers)"""
+    seen = set() if _seen is None else _seen
+    stack = [e]
+    while stack:
+        t = stack.pop()
+        if t.get_id() in seen:
+            continue
+        seen.add(t.get_id())
+        try:
+            srt = t.sort()
+            if srt.kind() == z3.Z3_RE_SORT or (srt.kind() == z3.Z3_SEQ_SORT and srt.is_string()):
+                return True
+        except Exception:
+            pass
+        stack.extend(t.children())
+    return False
+
+
+def second_opinion(solver: z3.Solver, inputs, budget_s=20):
+    """The assertion stack (pc and negated goal) is exported as SMT-LIB2 and put to cvc5, z3-new (5.1 CLI) and
+    the Debian z3 CLI, each under a hard wall-clock limit.  Returns (status, backend, model)."""
+    import shutil
     try:
         text = solver.to_smt2()
     except Exception:
@@ -68,21 +90,27 @@ def second_opinion(solver: z3.Solver, inputs):
     with tempfile.NamedTemporaryFile("w", suffix=".smt2", delete=False, dir=os.environ.get("VERIF_SCRATCH")) as fh:
         fh.write(text)
         path = fh.name
+    tried = []
     try:
-        for name, cmd in (("cvc5", [CVC5, "--strings-exp", "--tlimit=20000", path]),
-                          ("z3-cli", [Z3CLI, "-T:20", path])):
-            if not os.path.exists(cmd[0]):
+        for name, cmd in (("cvc5", [CVC5, "--strings-exp", f"--tlimit={budget_s * 1000}", path]),
+                          ("z3-new-cli", [Z3NEW, f"-T:{budget_s}", path]),
+                          ("z3-cli", [Z3CLI, f"-T:{budget_s}", path])):
+            exe = cmd[0] if os.path.exists(cmd[0]) else shutil.which(cmd[0])
+            if not exe:
                 continue
+            cmd[0] = exe
             try:
-                out = subprocess.run(cmd, capture_output=True, text=True, timeout=30).stdout.strip().splitlines()
+                out = subprocess.run(cmd, capture_output=True, text=True, timeout=budget_s + 10).stdout.strip().splitlines()
             except Exception:
+                tried.append(name + ":timeout")
                 continue
             ans = out[0].strip() if out else ""
+            tried.append(f"{name}:{ans or 'none'}")
             if ans == "unsat":
                 return "discharged", name, None
             if ans == "sat":
                 return "failed", name, {}
-        return "undecided", "z3+cvc5:unknown", None
+        return "undecided", "+".join(tried) or "no-solver", None
     finally:
         try:
             os.unlink(path)
@@ -92,7 +120,7 @@ def second_opinion(solver: z3.Solver, inputs):
 
 def versions():
     out = {"z3-api": z3.get_version_string()}
-    for name, cmd in (("cvc5", [CVC5, "--version"]), ("z3-cli", [Z3CLI, "--version"])):
+    for name, cmd in (("cvc5", [CVC5, "--version"]), ("z3-cli", [Z3CLI, "--version"]), ("z3-new-cli", [Z3NEW, "--version"])):
         try:
             out[name] = subprocess.run(cmd, capture_output=True, text=True, timeout=10).stdout.splitlines()[0]
         except Exception:
